@@ -26,6 +26,7 @@ import (
 	"google.golang.org/grpc"
 	"google.golang.org/grpc/credentials/insecure"
 
+	"github.com/temporalio/s2s-proxy/config"
 	vrt "github.com/temporalio/s2s-proxy/internal/verifrt"
 	"github.com/temporalio/s2s-proxy/transport/grpcutil"
 )
@@ -38,15 +39,40 @@ type vfMicroReplay struct {
 // vfPoolMicro: pool of `size`; the provider loop is managed; the environment offers a good connection and,
 // at any scheduling point, kills that peer (killPeer) or cancels the lifetime (cancel).
 func vfPoolMicro(size int, fault string) func(s *vrt.Sched) (string, string, string) {
+	return vfPoolMicroOn(size, fault, "establisher", false)
+}
+
+// vfPoolMicroOn with real=true builds the provider with the real NewMuxEstablisherProvider /
+// NewMuxReceiverProvider over the in-memory network; the fake listener has a scheduling point between handing
+// over a connection and Accept returning, so the fault is also taken inside receivingConnProvider.NewConnection.
+func vfPoolMicroOn(size int, fault, role string, real bool) func(s *vrt.Sched) (string, string, string) {
 	return func(s *vrt.Sched) (sig, detail, outcome string) {
-		e := &vfPoolExec{sc: vfPoolScenario{Size: size, Role: "establisher"}}
+		defer vrt.SetFakeNet(nil)
+		e := &vfPoolExec{sc: vfPoolScenario{Size: size, Role: role, Real: real}}
 		lifetime, cancel := context.WithCancel(context.Background())
 		e.cancel = cancel
 		logger := log.NewNoopLogger()
 		builder := func(add AddNewMux, ctx context.Context) (MuxProvider, error) {
+			if real {
+				e.fn = vfNewFakeNet()
+				e.fn.afterAccept = func() { vrt.Point("fakenet", "accepted") }
+				vrt.SetFakeNet(&vrt.FakeNet{Dial: e.fn.dial, Listen: e.fn.listen})
+				setting := config.TCPTLSInfo{ConnectionString: "verif-peer:7233"}
+				labels := []string{"verif-peer:7233", "mux", "micro"}
+				if role == "receiver" {
+					return NewMuxReceiverProvider(ctx, "verif", add, int64(size), setting, labels, logger)
+				}
+				return NewMuxEstablisherProvider(ctx, "verif", add, int64(size), setting, labels, logger)
+			}
 			e.cp = &vfConnProvider{lifetime: ctx, offers: make(chan vfOffer)}
 			sessionFn := func(conn net.Conn) (*yamux.Session, error) {
-				sess, err := yamux.Client(conn, vfYamuxConfig())
+				var sess *yamux.Session
+				var err error
+				if role == "receiver" {
+					sess, err = yamux.Server(conn, vfYamuxConfig())
+				} else {
+					sess, err = yamux.Client(conn, vfYamuxConfig())
+				}
 				if sess != nil {
 					e.sessions = append(e.sessions, sess)
 				}
@@ -284,7 +310,7 @@ func vfMicroRun(t *testing.T, property string, testName string, scenarios map[st
 	for i := 0; i < len(ks) && i < 4; i++ {
 		res.Sample(map[string]any{"micro_outcome": ks[i], "schedules": outcomes[ks[i]]})
 	}
-	res.Assume("micro level: scheduling points at lock acquisitions, channel operations and goroutine starts of provider.go, multi_mux_manager.go, managed_mux_session.go and multi_client_conn.go; yamux and gRPC goroutines run free")
+	res.Assume("micro level: scheduling points at lock acquisitions, channel operations and goroutine starts of provider.go, multi_mux_manager.go, managed_mux_session.go, multi_client_conn.go, establisher.go and receiver.go (the last two over an in-memory network); yamux and gRPC goroutines run free")
 }
 
 func TestVerifC10Micro(t *testing.T) {
@@ -292,6 +318,10 @@ func TestVerifC10Micro(t *testing.T) {
 		"pool1-peer-dies-during-connect":     vfPoolMicro(1, "killPeer"),
 		"pool2-peer-dies-during-connect":     vfPoolMicro(2, "killPeer"),
 		"pool1-lifetime-ends-during-connect": vfPoolMicro(1, "cancel"),
+		// the real connection providers (establisher.go / receiver.go) over the in-memory network
+		"real-receiver-lifetime-ends-during-accept":  vfPoolMicroOn(1, "cancel", "receiver", true),
+		"real-receiver-peer-dies-during-accept":      vfPoolMicroOn(1, "killPeer", "receiver", true),
+		"real-establisher-lifetime-ends-during-dial": vfPoolMicroOn(1, "cancel", "establisher", true),
 	})
 }
 
